@@ -97,7 +97,7 @@ def run_mc(model, constants, workers=8, timeout=3600, cfg=None):
         f.write(render_cfg(cfg, constants))
     t0 = time.time()
     try:
-        r = java([], ["-workers", str(workers), "-metadir", os.path.join(cdir, "md"), "-cleanup",
+        r = java(["-Xss512m"], ["-workers", str(workers), "-metadir", os.path.join(cdir, "md"), "-cleanup",
                       "-noGenerateSpecTE", "-config", cfgname, model + ".tla"], cwd=SPEC, timeout=timeout)
     finally:
         os.unlink(cfgpath)
